@@ -13,12 +13,31 @@ ASSUMPTIONS = ["the contributed prefix is interpreted by reference printer A lin
 
 def scenarios(tier):
     q = tier == "quick"
-    menu = [("TRAVEL", "I1"), ("TRAVEL", "O2"), ("PRINT", "I2"), ("PRINT", "O1"), ("RETRACT",), ("RECOVER",),
-            ("ZMOVE", 2), ("RAW", "M117 x"), ("RAW", "M204 S5"),
-            ("SCRIPT", "gcode", "afterPrintDone"), ("SCRIPT", "gcode", "beforePrintStarted"),
-            ("SCRIPT", "file", "afterPrintDone"),
-            ("EV", "PRINT_DONE"), ("EV", "PRINT_CANCELLED"), ("NEWPRINT",)]
-    if not q:
-        menu += [("TRAVELZ", "I1", 2), ("AT", "ExcludeRegion", "disable"), ("EV", "PRINT_PAUSED")]
+    program = [("TRAVEL", "I1"), ("TRAVEL", "O2"), ("PRINT", "I2"), ("PRINT", "O1"), ("RETRACT",), ("RECOVER",),
+               ("ZMOVE", 2), ("RAW", "M117 x"), ("RAW", "M204 S5")]
+    hooks = [("SCRIPT", "gcode", "afterPrintDone"), ("SCRIPT", "gcode", "beforePrintStarted"),
+             ("SCRIPT", "file", "afterPrintDone"), ("SCRIPT", "gcode", "afterPrintPaused"),
+             ("SCRIPT", "gcode", "afterPrintCancelled")]
+    ends = [("EV", "PRINT_DONE"), ("EV", "PRINT_CANCELLED"), ("NEWPRINT",)]
     cfg = dict(prop="C15", monitors=("c15",), regions=["R"], emax=1, exit="M400\n", key_depth=False)
-    return [Scenario("c15-print-end", World, cfg, menu, max_states=150000 if q else 3000000)]
+    cap = 150000 if q else 3000000
+    if q:
+        out = [Scenario("c15-programs", World, cfg, program + hooks[:1] + ends, max_states=cap,
+                        note="programs ending inside/outside an episode with deferred codes, Z changes, owed recoveries"),
+               Scenario("c15-hook-sequences", World, cfg,
+                        [("TRAVEL", "I1"), ("TRAVEL", "O2"), ("PRINT", "I2"), ("RAW", "M117 x"), ("RAW", "G28 X")]
+                        + hooks + ends, max_states=cap,
+                        note="all sequences of script-hook invocations (near-miss script names, other types), a partial "
+                             "homing inside the episode, end events")]
+    else:
+        out = [Scenario("c15-print-end", World, cfg, program + [("RAW", "G28 X"), ("TRAVELZ", "I1", 2),
+                                                                 ("AT", "ExcludeRegion", "disable"), ("EV", "PRINT_PAUSED"),
+                                                                 ("SCRIPT", "gcode", "afterPrintResumed")] + hooks + ends,
+                        max_states=cap)]
+    # the region is deleted (shrinking allowed) while the episode is open: the episode still has to be cleaned up
+    out.append(Scenario("c15-region-deleted", World, dict(cfg, shrink=True),
+                        [("TRAVEL", "I1"), ("TRAVEL", "O2"), ("PRINT", "I2"), ("RAW", "M117 x"),
+                         ("API", "del", "r", None, False), ("SCRIPT", "gcode", "afterPrintDone"),
+                         ("SCRIPT", "gcode", "afterPrintPaused"), ("EV", "PRINT_DONE")],
+                        max_states=cap))
+    return out
